@@ -54,7 +54,7 @@ def skip_edges(ctx, filename):
         # removing it is harmless — it cannot lead to `create`)
         S.extend(tr.all_neg_edges())
         info.append((bb, tr))
-    for bb, t in ctx.calls(*VERIFY):
+    for bb, t in ctx.calls(*VERIFY, wrappers=True):
         if len(t.args) < 2:
             continue
         og = ctx.origins.of_operand(t.args[1])
@@ -147,7 +147,7 @@ def run(chk, prog):
         cats = {"absent-or-unparsable": [], "no-longer-verifies": []}
         for bb_, tr_ in info:
             cats["absent-or-unparsable"].extend(e for br in tr_.branches if br.level >= 1 and br.kind != "Poll" for e in br.neg)
-        for vb, vt in ctx.calls(*VERIFY):
+        for vb, vt in ctx.calls(*VERIFY, wrappers=True):
             og_ = ctx.origins.of_operand(vt.args[1])
             if og_ and all(stored_origin(ctx, o, fname) for o in og_):
                 cats["no-longer-verifies"].extend(ctx.track_call(vb).all_neg_edges())
@@ -171,7 +171,7 @@ def run(chk, prog):
                         ctx.site(bb), path=ctx.describe_path(p2))
         # the verify_role of the fetched document must precede create
         vs = []
-        for bb, t in ctx.calls(*VERIFY):
+        for bb, t in ctx.calls(*VERIFY, wrappers=True):
             if len(t.args) >= 2 and ctx.origins.of_operand(t.args[1]) == fetched:
                 vs.extend(ctx.track_call(bb).pos_edges(0))
         p3 = ctx.cfg.witness_path(create_blocks, vs)
